@@ -126,7 +126,10 @@ def make_recorder_callback(log, loop_cap, extra=None):
 
         def on_loop_start(self):
             self.loops += 1
-            log.append(("loop_start", self.loops))
+            info = None
+            if extra is not None and self.tuner is not None and self.tuner.tuning_status is not None:
+                info = extra(self.tuner)   # == the status at the end of the previous iteration
+            log.append(("loop_start", self.loops, info))
             if self.loops > loop_cap:
                 raise LoopCap(f"more than {loop_cap} loop iterations")
 
